@@ -774,3 +774,385 @@ def extra_c16(ctx, pf):
                 if got != "TypeError":
                     ctx.violation("c16:bcface-type-form", f"BoundaryFace with a non-array coefficient ({'abc'[pos]} = {bad!r}) and {fname} gives {got}, documented: TypeError", {"form": fname, "position": "abc"[pos], "value": repr(bad)})
     return n
+
+
+# ================================================================== round-4 lessons
+# (1) code paths that switch on SIZE (a different solver / a cache above some number of cells): one large case per check;
+# (2) change detection by tolerance (np.allclose): edits that are tiny in absolute or relative terms;
+# (3) dtype variants of EVERY array argument (face fields too, float32 too);  (4) layout variants of every array argument;
+# (5) operands built with non-default options (BCsTerm_precalc=False, results of the explicit solver);
+# (6) two successive results of one builder must not share storage.
+def _chain(*fs):
+    def run(ctx, pf):
+        return sum(f(ctx, pf) for f in fs)
+    return run
+
+
+def big_c01(ctx, pf):
+    """closed no-flux system with more than 100 000 unknowns: the amount must still be conserved to rounding"""
+    n = 0
+    for cname, Ns in (("CylindricalGrid2D", (340, 320)), ("Grid2D", (330, 335))):
+        rng = random.Random(f"c01big-{ctx.seed}")
+        fs = [np.cumsum([0.0] + [0.5 + 0.5 * ((7 * i) % 5) / 5.0 for i in range(N)]) / N for N in Ns]
+        mesh = gen.build_mesh(pf, cname, fs)
+        L = {"cls": cname, "N": list(Ns), "unknowns": int(np.prod([k + 2 for k in Ns]))}
+        try:
+            with np.errstate(all="ignore"):
+                X, Y = np.meshgrid(mesh.cellcenters._x, mesh.cellcenters._y, indexing="ij")
+                c = pf.CellVariable(mesh, 1.0 + np.sin(3 * X) * np.cos(2 * Y))
+                D = pf.FaceVariable(mesh, 0.01)
+                ux = np.zeros((Ns[0] + 1, Ns[1])); ux[1:-1, :] = 0.05
+                uy = np.zeros((Ns[0], Ns[1] + 1)); uy[:, 1:-1] = -0.03
+                if cname.startswith("Cyl"):
+                    ux[1:-1, :] = 0.05 / np.maximum(np.asarray(fs[0])[1:-1, None], 1e-3)
+                u = pf.FaceVariable(mesh, ux, uy, np.array([]))
+                i0 = float(c.domainIntegral())
+                for step in range(2):
+                    pf.solvePDE(c, [pf.transientTerm(c, 0.1, 1.0), -pf.diffusionTerm(D), pf.convectionUpwindTerm(u)])
+                i1 = float(c.domainIntegral())
+            n += 1
+            if abs(i1 - i0) > 1e-10 * abs(i0):
+                ctx.violation(f"c01:{cname}:large-closed", f"{cname}: closed no-flux system with {L['unknowns']} unknowns: domainIntegral changed from {i0!r} to {i1!r} over two implicit steps (relative {abs(i1 - i0) / abs(i0):.2g})", L)
+        except Exception as ex:
+            ctx.violation(f"c01:{cname}:large-raise", f"{cname}: large closed system raised {type(ex).__name__}: {ex}", L)
+    return n
+
+
+def big_c04(ctx, pf):
+    """solvePDE against solveMatrixPDE-with-explicit-solver and the interior residual on a system with more than 100 000 unknowns"""
+    from scipy.sparse.linalg import spsolve
+    n = 0
+    Ns = (345, 310)
+    fs = [np.linspace(0.0, 1.0, N + 1) ** 1.2 for N in Ns]
+    mesh = gen.build_mesh(pf, "Grid2D", fs)
+    L = {"cls": "Grid2D", "N": list(Ns)}
+    try:
+        with np.errstate(all="ignore"):
+            X, Y = np.meshgrid(mesh.cellcenters._x, mesh.cellcenters._y, indexing="ij")
+            BC = pf.BoundaryConditions(mesh); BC.left.a[:] = 0.0; BC.left.b[:] = 1.0; BC.left.c[:] = 1.0
+            phi = pf.CellVariable(mesh, 0.0, BC)
+            M = -pf.diffusionTerm(pf.FaceVariable(mesh, 1.0)) + pf.linearSourceTerm(pf.CellVariable(mesh, 1.0 + X))
+            rhs = pf.constantSourceTerm(pf.CellVariable(mesh, np.cos(Y)))
+            pf.solvePDE(phi, [M, rhs])
+            Mbc, Rbc = pf.boundaryConditionsTerm(BC)
+            ref = spsolve(Mbc + M, Rbc + rhs)
+            res = (Mbc + M) @ np.asarray(phi._value).ravel() - (Rbc + rhs)
+        n += 1
+        d = float(np.max(np.abs(np.asarray(phi._value).ravel() - ref))) / (float(np.max(np.abs(ref))) + 1e-300)
+        if d > 1e-10:
+            ctx.violation("c04:large-system", f"Grid2D {Ns}: the values solvePDE stores for a system of {ref.size} unknowns differ from the direct solution of the assembled system (rel {d:.2g}, residual {float(np.max(np.abs(res))):.2g})", L)
+    except Exception as ex:
+        ctx.violation("c04:large-raise", f"large system raised {type(ex).__name__}: {ex}", L)
+    return n
+
+
+def tiny_edits_c09(ctx, pf):
+    """an edit of a boundary coefficient by a tiny absolute / relative amount is still an edit: the next solve equals a fresh start"""
+    n = 0
+    rng = random.Random(f"c09tiny-{ctx.seed}")
+    for cname in gen.CLASSES:
+        d = gen.DIM[cname]
+        fs = gen.mesh_case(rng, cname, nmax=3, nmin=2)
+        mesh = gen.build_mesh(pf, cname, fs)
+        D = pf.FaceVariable(mesh, 1.0)
+        for base, new in ((2e-10, 8e-10), (1000.0, 1000.004), (1.0, 1.0 + 3e-7), (0.0, 5e-9)):
+            for consumer in ("implicit", "explicit+implicit"):
+                L = {"cls": cname, "faces": [list(map(float, f)) for f in fs], "edit": f"Dirichlet value {base!r} -> {new!r} on every side", "then": consumer}
+                try:
+                    with np.errstate(all="ignore"):
+                        def setbc(B, val):
+                            for ax in range(d):
+                                for s in SIDES[ax]:
+                                    f = getattr(B, s); f.a[:] = 0.0; f.b[:] = 1.0; f.c[:] = val
+                        BC = pf.BoundaryConditions(mesh); setbc(BC, base)
+                        init = ival(rng, tuple(int(k) for k in mesh.dims), 0, 4) * (abs(new) + abs(base))
+                        v = pf.CellVariable(mesh, init, BC)
+                        pf.solvePDE(v, [pf.transientTerm(v, 0.5, 1.0), -pf.diffusionTerm(D)])
+                        setbc(v.BCs, new)
+                        B2 = pf.BoundaryConditions(mesh); setbc(B2, new)
+                        fresh = pf.CellVariable(mesh, np.array(v.value), B2)
+                        for w_ in (v, fresh):
+                            if consumer != "implicit":
+                                pf.solveExplicitPDE(w_, 0.0, np.zeros(w_._value.size))
+                            pf.solvePDE(w_, [pf.transientTerm(w_, 0.5, 1.0), -pf.diffusionTerm(D)])
+                    n += 1
+                    if relsc(v._value, fresh._value) > 1e-9:
+                        ctx.violation(f"c09:{cname}:tiny-edit", f"{cname}: after changing the Dirichlet value from {base!r} to {new!r} the next solve ({consumer}) differs from a fresh start (rel {relsc(v._value, fresh._value):.3g}): the edit was not noticed", L)
+                        break
+                except Exception as ex:
+                    ctx.violation(f"c09:{cname}:tiny-edit-raise", f"{cname}: tiny boundary edit raised {type(ex).__name__}: {ex}", L)
+    return n
+
+
+def tiny_edits_c03(ctx, pf):
+    """after a tiny edit of the boundary data the solved interior and the stored boundary values must still satisfy the NEW condition"""
+    n = 0
+    rng = random.Random(f"c03tiny-{ctx.seed}")
+    for cname in gen.CLASSES:
+        d = gen.DIM[cname]
+        fs = gen.mesh_case(rng, cname, nmax=3, nmin=2)
+        mesh = gen.build_mesh(pf, cname, fs)
+        D = pf.FaceVariable(mesh, 1.0)
+        for base, new in ((2e-10, 8e-10), (1000.0, 1000.004)):
+            L = {"cls": cname, "faces": [list(map(float, f)) for f in fs], "edit": f"Dirichlet value {base!r} -> {new!r}"}
+            try:
+                with np.errstate(all="ignore"):
+                    BC = pf.BoundaryConditions(mesh)
+                    for ax in range(d):
+                        for s in SIDES[ax]:
+                            f = getattr(BC, s); f.a[:] = 0.0; f.b[:] = 1.0; f.c[:] = base
+                    v = pf.CellVariable(mesh, base, BC)
+                    pf.solvePDE(v, [pf.transientTerm(v, 0.5, 1.0), -pf.diffusionTerm(D)])
+                    for ax in range(d):
+                        for s in SIDES[ax]:
+                            getattr(v.BCs, s).c[:] = new
+                    spy = {}
+                    from scipy.sparse.linalg import spsolve
+                    def solver(M, R):
+                        spy["x"] = spsolve(M, R); return spy["x"]
+                    pf.solvePDE(v, [pf.transientTerm(v, 0.5, 1.0), -pf.diffusionTerm(D)], externalsolver=solver)
+                    raw = np.asarray(spy["x"]).reshape(full_shape(mesh))
+                n += 1
+                # Dirichlet: face average of the SOLVER's ghost and inner value = new value, on the first axis' lo side
+                lo = tuple(0 if i == 0 else slice(1, -1) for i in range(d)); l1 = tuple(1 if i == 0 else slice(1, -1) for i in range(d))
+                r_solver = float(np.max(np.abs(0.5 * (raw[lo] + raw[l1]) - new))) / abs(new)
+                r_stored = float(np.max(np.abs(0.5 * (np.asarray(v._value)[lo] + np.asarray(v._value)[l1]) - new))) / abs(new)
+                if r_solver > 1e-9 or r_stored > 1e-9:
+                    ctx.violation(f"c03:{cname}:tiny-edit", f"{cname}: after editing the Dirichlet value from {base!r} to {new!r} the boundary equations the solver used / the stored boundary values do not encode the new value (relative residuals {r_solver:.2g} / {r_stored:.2g})", L)
+                    break
+            except Exception as ex:
+                ctx.violation(f"c03:{cname}:tiny-edit-raise", f"{cname}: tiny boundary edit raised {type(ex).__name__}: {ex}", L)
+    return n
+
+
+def coef_dtype_c05(ctx, pf, prop="c05"):
+    """integer-valued face fields given as integer / float32 arrays: every builder gives what it gives for float64 arrays"""
+    n = 0
+    rng = random.Random(f"{prop}cdt-{ctx.seed}")
+    for cname in gen.CLASSES:
+        fs = gen.mesh_case(rng, cname, nmax=3, nmin=2)
+        mesh = gen.build_mesh(pf, cname, fs)
+        L = {"cls": cname, "faces": [list(map(float, f)) for f in fs]}
+        Dv = [ival(rng, s, 1, 5) for s in face_shapes(mesh)]
+        uv = [2 * ival(rng, s, -2, 2) + 1 for s in face_shapes(mesh)]          # odd integers of both signs
+        phi = pf.CellVariable(mesh, ival(rng, full_shape(mesh), 0, 5) + 0.125)
+        try:
+            with np.errstate(all="ignore"):
+                ref = builders_on(pf, mesh, mkface(pf, mesh, Dv), mkface(pf, mesh, uv), phi)
+                ref["convectionUpwindTerm+u_upwind"] = mat(pf.convectionUpwindTerm(mkface(pf, mesh, uv), mkface(pf, mesh, [-x for x in uv])))
+                for tag, cast in (("int64", np.int64), ("int32", np.int32), ("float32", np.float32)):
+                    D2 = mkface(pf, mesh, [x.astype(cast) for x in Dv]); u2 = mkface(pf, mesh, [x.astype(cast) for x in uv])
+                    got = builders_on(pf, mesh, D2, u2, phi)
+                    got["convectionUpwindTerm+u_upwind"] = mat(pf.convectionUpwindTerm(u2, mkface(pf, mesh, [(-x).astype(cast) for x in uv])))
+                    for k in ref:
+                        n += 1
+                        tol = 1e-13 if tag != "float32" else 1e-6
+                        if relsc(got[k], ref[k]) > tol:
+                            ctx.violation(f"{prop}:{cname}:{k}:coef-dtype", f"{cname}: {k} of integer-valued coefficient arrays given as {tag} differs from the same values as float64 (rel {relsc(got[k], ref[k]):.3g})",
+                                          dict(L, builder=k, dtype=tag, u=[a.tolist() for a in uv], D=[a.tolist() for a in Dv]))
+        except Exception as ex:
+            ctx.violation(f"{prop}:{cname}:coef-dtype-raise", f"{cname}: integer-dtype coefficient arrays raised {type(ex).__name__}: {ex}", L)
+    return n
+
+
+def scale_c10(ctx, pf):
+    """grids of SI size: a graded grid in nanometres has the same relative geometry as the same grid in unit lengths"""
+    n = 0
+    rng = random.Random(f"c10sc-{ctx.seed}")
+    for cname in gen.CLASSES:
+        for scale in (1e-9, 1e-7, 1e5):
+            fs0 = [np.asarray(f, dtype=float) for f in gen.mesh_case(rng, cname, nmax=4, nmin=3)]
+            kinds = gen.AXKIND[cname]
+            fs = [f * scale if kinds[a] in ("len", "rad") else f for a, f in enumerate(fs0)]
+            L = {"cls": cname, "faces": [list(map(float, f)) for f in fs], "length_scale": scale}
+            try:
+                m0 = gen.build_mesh(pf, cname, fs0); m1 = gen.build_mesh(pf, cname, fs)
+                for a in range(len(fs)):
+                    sc = scale if kinds[a] in ("len", "rad") else 1.0
+                    for nm in ("cellsize", "cellcenters", "facecenters"):
+                        x0 = np.asarray(getattr(getattr(m0, nm), "_" + "xyz"[a])); x1 = np.asarray(getattr(getattr(m1, nm), "_" + "xyz"[a]))
+                        n += 1
+                        if relsc(x1, x0 * sc) > 1e-12:
+                            ctx.violation(f"c10:{cname}:scaled-geometry", f"{cname}: {nm} of axis {a} of a grid of length scale {scale:g} is not the scaled {nm} of the unit-scale grid (rel {relsc(x1, x0 * sc):.3g}): sizes are not the face differences", dict(L, array=nm, axis=a))
+                            raise StopIteration
+            except StopIteration:
+                pass
+            except Exception as ex:
+                ctx.violation(f"c10:{cname}:scaled-raise", f"{cname}: grid of length scale {scale:g} raised {type(ex).__name__}: {ex}", L)
+    return n
+
+
+def alpha_repr_c12(ctx, pf):
+    """transientTerm / linearSourceTerm with per-cell coefficients in other layouts / dtypes"""
+    n = 0
+    rng = random.Random(f"c12lay-{ctx.seed}")
+    for cname in gen.CLASSES:
+        if gen.DIM[cname] == 1:
+            continue
+        fs = gen.mesh_case(rng, cname, nmax=3, nmin=2)
+        mesh = gen.build_mesh(pf, cname, fs)
+        d = gen.DIM[cname]
+        dims = tuple(int(k) for k in mesh.dims)
+        L = {"cls": cname, "faces": [list(map(float, f)) for f in fs]}
+        a_in = ival(rng, dims, 1, 6)
+        a_pad = np.pad(a_in, 1, mode="edge")
+        phi = pf.CellVariable(mesh, ival(rng, dims, 0, 4) + 0.5)
+        try:
+            with np.errstate(all="ignore"):
+                Mr, Rr = pf.transientTerm(phi, 0.5, pf.CellVariable(mesh, a_in))
+                Lr = pf.linearSourceTerm(pf.CellVariable(mesh, a_in))
+                variants = [(f"CellVariable from a {t} array (interior)", pf.CellVariable(mesh, x)) for t, x in layout_variants(a_in) + dtype_variants(a_in)] + \
+                           [(f"CellVariable from a {t} array (with ghost cells)", pf.CellVariable(mesh, x)) for t, x in layout_variants(a_pad) + dtype_variants(a_pad)]
+                for tag, al in variants:
+                    M2, R2 = pf.transientTerm(phi, 0.5, al)
+                    L2 = pf.linearSourceTerm(al)
+                    n += 1
+                    if relsc(mat(M2), mat(Mr)) > 1e-13 or relsc(R2, Rr) > 1e-13 or relsc(mat(L2), mat(Lr)) > 1e-13:
+                        ctx.violation(f"c12:{cname}:alpha-repr", f"{cname}: transientTerm / linearSourceTerm with alpha given as {tag} differ from the C-ordered float64 case: alpha*(new-old)/dt is not applied cell by cell", dict(L, alpha=tag))
+                        break
+                # the old field in other layouts
+                for t, x in layout_variants(np.pad(np.asarray(phi.value), 1, mode="edge")):
+                    M2, R2 = pf.transientTerm(pf.CellVariable(mesh, x), 0.5, pf.CellVariable(mesh, a_in))
+                    Mq, Rq = pf.transientTerm(pf.CellVariable(mesh, np.ascontiguousarray(x)), 0.5, pf.CellVariable(mesh, a_in))
+                    n += 1
+                    if relsc(R2, Rq) > 1e-13:
+                        ctx.violation(f"c12:{cname}:phi-repr", f"{cname}: transientTerm with the old field given as a {t} array differs from the C-ordered case", dict(L, phi=t)); break
+        except Exception as ex:
+            ctx.violation(f"c12:{cname}:alpha-repr-raise", f"{cname}: per-cell alpha in another layout raised {type(ex).__name__}: {ex}", L)
+    return n
+
+
+def operand_kinds_c14(ctx, pf):
+    """funceval / celleval / operators on variables built with BCsTerm_precalc=False and on results of the explicit solver"""
+    n = 0
+    rng = random.Random(f"c14ok-{ctx.seed}")
+    for cname in ("Grid1D", "CylindricalGrid2D"):
+        fs = gen.mesh_case(rng, cname, nmax=3, nmin=2)
+        mesh = gen.build_mesh(pf, cname, fs)
+        dims = tuple(int(k) for k in mesh.dims)
+        D = pf.FaceVariable(mesh, 1.0)
+        makers = [("CellVariable(..., BCsTerm_precalc=False)", lambda: pf.CellVariable(mesh, ival(rng, dims, 0, 4) + 0.5, BCsTerm_precalc=False)),
+                  ("result of solveExplicitPDE", lambda: pf.solveExplicitPDE(pf.CellVariable(mesh, ival(rng, dims, 0, 4) + 0.5), 0.01, np.zeros(int(np.prod(full_shape(mesh)))))),
+                  ("copy() of a variable", lambda: pf.CellVariable(mesh, ival(rng, dims, 0, 4) + 0.5).copy())]
+        ops = [("celleval(f, v)", lambda v: pf.celleval(lambda a: a + 1.0, v)), ("funceval(f, v, w)", lambda v: pf.funceval(lambda a, b: a + b, v, pf.CellVariable(mesh, 1.0))),
+               ("-v", lambda v: -v), ("v + 1.0", lambda v: v + 1.0), ("2.0 * v", lambda v: 2.0 * v), ("v.copy()", lambda v: v.copy())]
+        for mname, mk in makers:
+            for oname, op in ops:
+                L = {"cls": cname, "operand": mname, "operation": oname}
+                try:
+                    with np.errstate(all="ignore"):
+                        v = mk()
+                        r = op(v)
+                        fresh = pf.CellVariable(mesh, np.array(v.value), _copy.deepcopy(v.BCs))
+                        f = r.BCs.left; f.a[:] = 0.0; f.b[:] = 1.0; f.c[:] = 9.0
+                        r.value = np.asarray(r.value) + 2.0
+                        shared = r.BCs is v.BCs
+                        pf.solvePDE(v, [pf.transientTerm(v, 0.1, 1.0), -pf.diffusionTerm(D)])
+                        pf.solvePDE(fresh, [pf.transientTerm(fresh, 0.1, 1.0), -pf.diffusionTerm(D)])
+                    n += 1
+                    if shared or relsc(v._value, fresh._value) > 1e-12:
+                        ctx.violation(f"c14:{cname}:operand-kind", f"{cname}: the result of {oname} on a {mname} is not independent of its operand (editing the result's boundary conditions changes the operand)", L)
+                except Exception as ex:
+                    ctx.violation(f"c14:{cname}:operand-kind-raise", f"{cname}: {oname} on a {mname} raised {type(ex).__name__}: {ex}", L)
+    return n
+
+
+def results_alias_c15(ctx, pf):
+    """two successive results of one call do not share storage or objects, also on grids with more than 1000 cells"""
+    n = 0
+    meshes = [("Grid1D", pf.Grid1D(1200, 3.0)), ("CylindricalGrid2D", pf.CylindricalGrid2D(40, 30, 1.0, 2.0)), ("Grid3D", pf.Grid3D(12, 10, 9, 1.0, 1.0, 1.0)),
+              ("Grid2D", pf.Grid2D(3, 2, 1.0, 1.0))]
+    for cname, mesh in meshes:
+        L = {"cls": cname, "cells": int(np.prod(mesh.dims))}
+        phi = pf.CellVariable(mesh, 1.5); u = pf.FaceVariable(mesh, 1.0)
+        calls = [("cellLocations", lambda: pf.cellLocations(mesh)), ("faceLocations", lambda: pf.faceLocations(mesh)), ("gradientTerm", lambda: pf.gradientTerm(phi)),
+                 ("linearMean", lambda: pf.linearMean(phi)), ("cellvolume", lambda: mesh.cellvolume), ("diffusionTerm", lambda: pf.diffusionTerm(u)),
+                 ("boundaryConditionsTerm", lambda: pf.boundaryConditionsTerm(phi.BCs)), ("copy", lambda: phi.copy())]
+        def parts(r):
+            out = []
+            def walk(x):
+                if isinstance(x, (tuple, list)):
+                    for y in x: walk(y)
+                elif hasattr(x, "_value") or hasattr(x, "_xvalue"):
+                    out.append(x)
+                elif isinstance(x, np.ndarray) or hasattr(x, "tocsr"):
+                    out.append(x)
+            walk(r); return out
+        def arrays(x):
+            if hasattr(x, "_xvalue"): return [np.asarray(x._xvalue), np.asarray(x._yvalue), np.asarray(x._zvalue)]
+            if hasattr(x, "_value"): return [np.asarray(x._value)]
+            if hasattr(x, "tocsr"): return [x.tocsr().data]
+            return [np.asarray(x)]
+        for nm, call in calls:
+            try:
+                with np.errstate(all="ignore"):
+                    r1 = call(); p1 = parts(r1)
+                    snap = [[a.copy() for a in arrays(x)] for x in p1]
+                    # modify the first result in place, then call again
+                    for x in p1:
+                        for a in arrays(x):
+                            if a.size and a.flags.writeable:
+                                a[...] = a + 1.0
+                        if hasattr(x, "BCs"):
+                            x.BCs.left.c[:] = 17.0
+                    r2 = call(); p2 = parts(r2)
+                n += 1
+                same_obj = any(a is b for a, b in zip(p1, p2))
+                changed = any(relsc(a2, s0) > 1e-13 for x2, s in zip(p2, snap) for a2, s0 in zip(arrays(x2), s))
+                bc_leak = any(hasattr(x, "BCs") and np.any(np.asarray(x.BCs.left.c) == 17.0) for x in p2)
+                if same_obj or changed or bc_leak:
+                    ctx.violation(f"c15:{cname}:{nm}:result-reuse", f"{cname} ({L['cells']} cells): a second call of {nm} returns objects / storage of the first call (an in-place edit of the first result shows in the second)", dict(L, call=nm))
+            except Exception as ex:
+                ctx.violation(f"c15:{cname}:{nm}:result-reuse-raise", f"{cname}: {nm} twice raised {type(ex).__name__}: {ex}", dict(L, call=nm))
+    return n
+
+
+def extra_c04_more(ctx, pf):
+    """periodic boundaries with integer cell data; float32 cell data incl. ghost cells"""
+    n = 0
+    rng = random.Random(f"c04per-{ctx.seed}")
+    for cname in gen.CLASSES:
+        d = gen.DIM[cname]
+        nonrad = [a for a in range(d) if gen.AXKIND[cname][a] != "rad"]
+        fs = gen.mesh_case(rng, cname, nmax=3, nmin=2, uniform=True)
+        mesh = gen.build_mesh(pf, cname, fs)
+        inner = ival(rng, tuple(int(k) for k in mesh.dims), 0, 4)
+        L = {"cls": cname, "faces": [list(map(float, f)) for f in fs], "phi_interior": inner.tolist()}
+        try:
+            with np.errstate(all="ignore"):
+                D = pf.FaceVariable(mesh, 1.0)
+                def mkbc():
+                    B = pf.BoundaryConditions(mesh)
+                    for a in nonrad:
+                        getattr(B, SIDES[a][0]).periodic = True
+                    return B
+                def solve(v):
+                    pf.solvePDE(v, [pf.transientTerm(v, 0.5, 1.0), -pf.diffusionTerm(D), pf.linearSourceTerm(pf.CellVariable(mesh, 0.5))])
+                    return np.array(v._value, dtype=float)
+                ref = solve(pf.CellVariable(mesh, inner, mkbc()))
+                for tag, arr in dtype_variants(inner) + [("float32", inner.astype(np.float32))]:
+                    got = solve(pf.CellVariable(mesh, arr, mkbc()))
+                    n += 1
+                    if relsc(got, ref) > (1e-12 if tag != "float32" else 1e-9):
+                        ctx.violation(f"c04:{cname}:periodic-dtype", f"{cname}: solvePDE on a periodic variable built from a {tag} array does not store the solution of the system (rel {relsc(got, ref):.3g})", dict(L, dtype=tag)); break
+                pad = np.pad(inner + 0.25, 1, mode="edge")
+                ref2 = solve(pf.CellVariable(mesh, pad))
+                got2 = solve(pf.CellVariable(mesh, pad.astype(np.float32)))
+                n += 1
+                if relsc(got2, ref2) > 1e-9:
+                    ctx.violation(f"c04:{cname}:float32-storage", f"{cname}: solvePDE on a variable built from a float32 array (with ghost cells) stores the solution in single precision (rel {relsc(got2, ref2):.3g})", L)
+        except Exception as ex:
+            ctx.violation(f"c04:{cname}:periodic-dtype-raise", f"{cname}: periodic integer data raised {type(ex).__name__}: {ex}", L)
+    return n
+
+
+extra_c01 = _chain(extra_c01, big_c01, lambda ctx, pf: coef_dtype_c05(ctx, pf, "c01"))
+extra_c03 = _chain(extra_c03, tiny_edits_c03)
+extra_c04 = _chain(extra_c04, extra_c04_more, big_c04)
+extra_c05 = _chain(extra_c05, lambda ctx, pf: coef_dtype_c05(ctx, pf, "c05"))
+extra_c07 = _chain(extra_c07, lambda ctx, pf: coef_dtype_c05(ctx, pf, "c07"))
+extra_c09 = _chain(extra_c09, tiny_edits_c09)
+extra_c10 = _chain(extra_c10, scale_c10)
+extra_c12 = _chain(extra_c12, alpha_repr_c12)
+extra_c14 = _chain(extra_c14, operand_kinds_c14)
+extra_c15 = _chain(extra_c15, results_alias_c15)
